@@ -10,11 +10,13 @@ import (
 	"encoding/binary"
 	"encoding/hex"
 	"encoding/json"
+	"encoding/pem"
 	"flag"
 	"fmt"
 	"io"
 	"os"
 	"path/filepath"
+	"sort"
 	"strconv"
 	"strings"
 	"testing"
@@ -134,8 +136,10 @@ func (p *stubProvider) GetRawQuoteAtLevel(rd [64]byte, _ uint) ([]uint8, error) 
 }
 
 var (
-	workerRoots *x509.CertPool
-	workerDir   string
+	workerRoots   *x509.CertPool
+	workerRootPEM []byte
+	workerRootDER []byte
+	workerDir     string
 )
 
 func workerInit() {
@@ -144,6 +148,8 @@ func workerInit() {
 	}
 	root := pki.MakeCert(pki.CertSpec{CN: "verif-root", Serial: 1, NotBefore: t0.Add(-day), NotAfter: t0.Add(1000 * day), IsCA: true, Key: pki.Key(0)})
 	workerRoots = pki.Pool([]*x509.Certificate{root})
+	workerRootDER = root.Raw
+	workerRootPEM = pem.EncodeToMemory(&pem.Block{Type: "CERTIFICATE", Bytes: root.Raw})
 	d, err := os.MkdirTemp("", "c07-worker-")
 	if err != nil {
 		panic(err)
@@ -176,7 +182,7 @@ func snpOptions(opt int) *verify.SNPOptions {
 	case 2:
 		return &verify.SNPOptions{Measurement: bytes.Repeat([]byte{0x5a}, 48)}
 	case 3:
-		return &verify.SNPOptions{Measurement: bytes.Repeat([]byte{0x5a}, 48), ExpectedLaunchVMSAs: uint32(opt / 4)}
+		return &verify.SNPOptions{Measurement: bytes.Repeat([]byte{0x5a}, 48), ExpectedLaunchVMSAs: uint32(opt / 4 % 16)}
 	}
 	return nil
 }
@@ -235,6 +241,9 @@ func decideCase(r req, b [][]byte) (string, error) {
 			}
 			if r.Opt&8 != 0 {
 				o.FirmwareManufacturer = ""
+			}
+			if r.Opt&16 != 0 {
+				o.UEFIVariableReader = nil
 			}
 			if b[1] != nil {
 				lp := filepath.Join(workerDir, "eventlog.bin")
@@ -325,37 +334,16 @@ func decideCase(r req, b [][]byte) (string, error) {
 			evt := &eventlog.SP800155Event3{}
 			err = evt.UnmarshalFromBytes(b[0])
 		case "exel.Locate":
-			_, err = exel.Locate(uint32(r.Opt), b[0], &exel.LocateOptions{Getter: &stubGetter{body: []byte("x")}, UEFIVariableReader: exel.MakeEfiVarFSReader(filepath.Join(workerDir, "efivars"))})
-		case "cli":
-			files := map[string][]byte{"a": b[0], "b": b[1], "roots.pem": []byte("-----BEGIN CERTIFICATE-----\nAAAA\n-----END CERTIFICATE-----\n")}
-			var args []string
-			switch r.Opt % 8 {
-			case 0:
-				args = []string{"verify", "a", "--root_cert", "roots.pem"}
-			case 1:
-				args = []string{"inspect", "payload", "a", "--bytesform", "hex"}
-			case 2:
-				args = []string{"inspect", "mask", "a", "--path", r.Str}
-			case 3:
-				args = []string{"sev", "policy", "a", "--launch_vmsas", "2"}
-			case 4:
-				args = []string{"tdx", "policy", "a"}
-			case 5:
-				args = []string{"sev", "validate", "a", "--endorsement", "b", "--root_cert", "roots.pem"}
-			case 6:
-				args = []string{"tdx", "validate", "a", "--endorsement", "b", "--root_cert", "roots.pem"}
-			case 7:
-				args = []string{"extract", "--quote", "a", "--eventlog", "", "--out", "o"}
+			lo := &exel.LocateOptions{Getter: &stubGetter{body: []byte("x")}, UEFIVariableReader: exel.MakeEfiVarFSReader(filepath.Join(workerDir, "efivars"))}
+			if r.Opt&locNoGetter != 0 {
+				lo.Getter = nil
 			}
-			root := gcmd.VerifMakeRoot(ctx, &gcmd.Backend{IO: &memIO{files: files}, Now: t0, Getter: &stubGetter{body: b[1]},
-				MakeEfiVariableReader: func(p string) exel.VariableReader {
-					return exel.MakeEfiVarFSReader(filepath.Join(workerDir, "efivars"))
-				}})
-			root.SetArgs(args)
-			root.SetOut(io.Discard)
-			root.SetErr(io.Discard)
-			root.SilenceUsage, root.SilenceErrors = true, true
-			err = root.Execute()
+			if r.Opt&locNoReader != 0 {
+				lo.UEFIVariableReader = nil
+			}
+			_, err = exel.Locate(uint32(r.Opt&0xff), b[0], lo)
+		case "cli":
+			err = runCLI(ctx, r, b)
 		default:
 			return "", fmt.Errorf("harness: unknown entry %q", r.Entry)
 		}
@@ -363,10 +351,113 @@ func decideCase(r req, b [][]byte) (string, error) {
 	}
 }
 
+// Option bits of the exel.Locate entry (the low byte is the locator type).
+const (
+	locNoGetter = 0x100
+	locNoReader = 0x200
+)
+
+// Option bits of the cli entry (the low four bits select the command line).
+const (
+	cliProvider   = 0x10 // the backend has a quote provider (inside a TEE); without it Backend.Provider is nil
+	cliForceFetch = 0x20
+	cliNoGetter   = 0x40
+	cliNoEfiVars  = 0x80 // Backend.MakeEfiVariableReader is nil
+	cliNoLog      = 0x100
+)
+
+// runCLI executes one command line of the gcetcbendorsement tool on in-memory files: a = b[0],
+// b = b[1] (an endorsement, or for extract the event log), b[2] the quote the provider returns.
+// roots.pem / roots.der really hold the worker's root of trust, so verify / sev validate /
+// tdx validate get past reading it.
+func runCLI(ctx context.Context, r req, b [][]byte) error {
+	files := map[string][]byte{"a": b[0], "b": b[1], "roots.pem": workerRootPEM, "roots.der": workerRootDER,
+		"bad.pem": []byte("-----BEGIN CERTIFICATE-----\nAAAA\n-----END CERTIFICATE-----\n")}
+	var args []string
+	switch r.Opt % 16 {
+	case 0:
+		args = []string{"verify", "a", "--root_cert", "roots.pem"}
+	case 1:
+		args = []string{"inspect", "payload", "a", "--bytesform", "hex"}
+	case 2:
+		args = []string{"inspect", "mask", "a", "--path", r.Str}
+	case 3:
+		args = []string{"sev", "policy", "a", "--launch_vmsas", "2"}
+	case 4:
+		args = []string{"tdx", "policy", "a"}
+	case 5:
+		args = []string{"sev", "validate", "a", "--endorsement", "b", "--root_cert", "roots.pem"}
+	case 6:
+		args = []string{"tdx", "validate", "a", "--endorsement", "b", "--root_cert", "roots.pem"}
+	case 7:
+		// PATH is positional; the event log is read from a real file
+		lp := ""
+		if b[1] != nil && r.Opt&cliNoLog == 0 {
+			lp = filepath.Join(workerDir, "cli-eventlog.bin")
+			os.WriteFile(lp, b[1], 0o644)
+		}
+		args = []string{"extract", "a", "--eventlog", lp, "--efivarfs", filepath.Join(workerDir, "efivars"), "--out", "o"}
+		if r.Opt&cliForceFetch != 0 {
+			args = append(args, "--force_fetch")
+		}
+	case 8:
+		// no --endorsement: taken from the attestation's certificate table or fetched
+		args = []string{"sev", "validate", "a", "--root_cert", "roots.pem"}
+	case 9:
+		args = []string{"verify", "a", "--root_cert", "roots.der"}
+	case 10:
+		args = []string{"verify", "a"} // root fetched through the backend getter
+	case 11:
+		args = []string{"verify", "a", "--root_cert", "bad.pem"}
+	case 12:
+		args = []string{"inspect", "signature", "a", "--bytesform", "base64"}
+	case 13:
+		args = []string{"sev", "--launch_vmsas", "2", "validate", "a", "--endorsement", "b", "--root_cert", "roots.pem"}
+	case 14:
+		args = []string{"tdx", "--ram_gib", "16", "validate", "a", "--endorsement", "b", "--root_cert", "roots.pem"}
+	default:
+		args = []string{"extract"} // no PATH: the quote comes from the provider, if any
+		if r.Opt&cliForceFetch != 0 {
+			args = append(args, "--force_fetch")
+		}
+		args = append(args, "--eventlog", "", "--out", "o")
+	}
+	be := &gcmd.Backend{IO: &memIO{files: files}, Now: t0, Getter: &stubGetter{body: b[1]},
+		MakeEfiVariableReader: func(p string) exel.VariableReader {
+			return exel.MakeEfiVarFSReader(filepath.Join(workerDir, "efivars"))
+		}}
+	if r.Opt%16 == 10 {
+		be.Getter = &stubGetter{body: workerRootPEM}
+	}
+	if r.Opt&cliProvider != 0 {
+		be.Provider = &stubProvider{quote: b[2]}
+	}
+	if r.Opt&cliNoGetter != 0 {
+		be.Getter = nil
+	}
+	if r.Opt&cliNoEfiVars != 0 {
+		be.MakeEfiVariableReader = nil
+	}
+	root := gcmd.VerifMakeRoot(ctx, be)
+	root.SetArgs(args)
+	root.SetOut(io.Discard)
+	root.SetErr(io.Discard)
+	root.SilenceUsage, root.SilenceErrors = true, true
+	return root.Execute()
+}
+
 func TestMain(m *testing.M) {
 	isolate.MaybeWorker()
 	code := m.Run()
 	isolate.Shutdown()
+	var names []string
+	for k := range maxAlloc {
+		names = append(names, k)
+	}
+	sort.Strings(names)
+	for _, k := range names {
+		ev.Note("largest allocation volume of a passing case, %s: %d bytes (input-independent budget %d)", k, maxAlloc[k], baseFor(k))
+	}
 	ev.Note("worker restarts: %d; verdicts (death / watchdog) that did not reproduce on a fresh worker and were therefore not counted: %d", isolate.Restarts, isolate.Flaky)
 	ev.Flush()
 	os.Exit(code)
@@ -399,6 +490,9 @@ func genGolden(t *rapid.T) (*epb.VMGoldenMeasurement, []string) {
 		absent = append(absent, "timestamp")
 	case 1:
 		g.Timestamp = &timestamppb.Timestamp{}
+	case 2:
+		// out of range for time.Time formatting / protobuf validity, still a legal wire encoding
+		g.Timestamp = &timestamppb.Timestamp{Seconds: rapid.SampledFrom([]int64{-1 << 63, 1<<63 - 1, -62135596801, 253402300800, 1 << 40}).Draw(t, "secs"), Nanos: rapid.SampledFrom([]int32{0, -1, 1<<31 - 1, -1 << 31}).Draw(t, "nanos")}
 	default:
 		g.Timestamp = timestamppb.New(t0)
 	}
@@ -496,6 +590,17 @@ func genEndorsement(t *rapid.T) ([]byte, string) {
 
 var hostile32 = []uint32{0, 1, 0x7f, 0x80, 0xff, 0xffff, 0x10000, 0x00ffffff, 0x10000000, 0x7fffffff, 0x80000000, 0xfffffff0, 0xffffffff}
 
+// hostilePair draws the offset and length of a certificate-table entry: two independent hostile
+// constants, or a pair whose 32-bit sum wraps to a small value (the shape a 32-bit bounds check lets
+// through).
+func hostilePair(t *rapid.T) (uint32, uint32) {
+	if rapid.Bool().Draw(t, "wrapping") {
+		ln := rapid.SampledFrom([]uint32{0x10, 0x20, 0x1000, 0x10000000, 0xfffffff0}).Draw(t, "len")
+		return -ln + rapid.SampledFrom([]uint32{0, 1, 0x10, 0x30}).Draw(t, "wrapTo"), ln
+	}
+	return rapid.SampledFrom(hostile32).Draw(t, "off"), rapid.SampledFrom(hostile32).Draw(t, "len")
+}
+
 // mutateBytes applies a drawn byte-level mutation and names it.
 func mutateBytes(t *rapid.T, b []byte) ([]byte, string) {
 	b = append([]byte(nil), b...)
@@ -553,7 +658,8 @@ func efiGUID(g string) []byte {
 }
 
 func genLocator(t *rapid.T) (uint32, []byte) {
-	typ := rapid.SampledFrom([]uint32{0, 1, 2, 3, 4, 5, 99}).Draw(t, "locType")
+	// types 0 (raw), 1 (URI) and 3 (UEFI variable) are the decoded ones; 2 and everything else are refused
+	typ := rapid.SampledFrom([]uint32{0, 1, 1, 3, 3, 3, 3, 3, 2, 4, 99, 0xffffffff}).Draw(t, "locType")
 	var data []byte
 	switch rapid.IntRange(0, 9).Draw(t, "locKind") {
 	case 9:
@@ -580,40 +686,104 @@ func genLocator(t *rapid.T) (uint32, []byte) {
 	return typ, data
 }
 
-func genSP800155(t *rapid.T) []byte {
+// genSP800155 draws an SP800-155 Event3 and returns its BODY - what SP800155Event3.UnmarshalFromBytes
+// takes and what TCGEventData hands it after the 16-byte signature (MarshalToBytes prepends that
+// signature) - after an optional structure-aware mutation: the uint32 size prefix of either locator
+// or the size byte of one of the five strings replaced by a hostile value, a string left without
+// its terminator, zero / non-zero padding appended, or a cut. The class names the mutation and
+// says whether the unmutated event would match the GCE firmware manufacturer.
+func genSP800155(t *rapid.T) ([]byte, string) { return genSP800155M(t, true) }
+
+// genSP800155M is genSP800155; with mutate false the event is left well-formed.
+func genSP800155M(t *rapid.T, mutate bool) ([]byte, string) {
 	typ, loc := genLocator(t)
+	man := rapid.SampledFrom([]string{"Google, Inc.", "", "x", strings.Repeat("m", 254)}).Draw(t, "man")
+	fman := rapid.SampledFrom([]string{"Google, Inc.", "Google, Inc.", "Google, Inc.", "Other", ""}).Draw(t, "fman")
+	certLoc := rapid.SliceOfN(rapid.Byte(), 0, 6).Draw(t, "certLoc")
 	sp := &eventlog.SP800155Event3{
 		PlatformManufacturerID:  11129,
-		PlatformManufacturerStr: eventlog.ByteSizedCStr{Data: rapid.SampledFrom([]string{"Google, Inc.", "", "x", strings.Repeat("m", 254)}).Draw(t, "man")},
+		PlatformManufacturerStr: eventlog.ByteSizedCStr{Data: man},
 		PlatformModel:           eventlog.ByteSizedCStr{Data: "model"},
-		FirmwareManufacturerStr: eventlog.ByteSizedCStr{Data: rapid.SampledFrom([]string{"Google, Inc.", "Other", ""}).Draw(t, "fman")},
+		FirmwareManufacturerStr: eventlog.ByteSizedCStr{Data: fman},
 		FirmwareManufacturerID:  11129,
 		FirmwareVersion:         eventlog.ByteSizedCStr{Data: "2.7"},
 		RIMLocatorType:          typ,
+		PlatformCertLocatorType: rapid.SampledFrom([]uint32{0, 1, 3, 7}).Draw(t, "certLocType"),
 	}
 	sp.RIMLocator.Data = loc
-	b, err := sp.MarshalToBytes()
-	if err != nil {
-		return []byte("SP800-155 Event3")
+	sp.PlatformCertLocator.Data = certLoc
+	full, err := sp.MarshalToBytes()
+	if err != nil || len(full) < eventlog.EventSignatureSize {
+		return nil, "sp800155/marshal-error"
 	}
-	return b
+	body := append([]byte(nil), full[eventlog.EventSignatureSize:]...)
+	cls := "other-fw"
+	if fman == extract.GCEFirmwareManufacturer {
+		cls = "gce-fw"
+	}
+	// offsets inside the body
+	certSizeOff := len(body) - 4 - len(certLoc)
+	rimSizeOff := certSizeOff - 4 - len(loc) - 4
+	strOffs := []int{20}
+	for _, str := range []string{man, "model", ""} { // PlatformManufacturerStr, PlatformModel, PlatformVersion precede FirmwareManufacturerStr
+		strOffs = append(strOffs, strOffs[len(strOffs)-1]+1+len(str)+1)
+	}
+	strOffs = append(strOffs, strOffs[3]+1+len(fman)+1+4) // FirmwareVersion follows FirmwareManufacturerID
+	mut := "none"
+	if mutate {
+		mut = rapid.SampledFrom([]string{"none", "none", "none", "none", "rim-size", "rim-size", "cert-size", "str-size", "str-unterminated", "pad-zero", "pad-nonzero", "cut"}).Draw(t, "spMut")
+	}
+	switch mut {
+	case "rim-size":
+		binary.LittleEndian.PutUint32(body[rimSizeOff:], rapid.SampledFrom(hostile32).Draw(t, "v"))
+	case "cert-size":
+		binary.LittleEndian.PutUint32(body[certSizeOff:], rapid.SampledFrom(hostile32).Draw(t, "v"))
+	case "str-size":
+		body[strOffs[rapid.IntRange(0, 4).Draw(t, "which")]] = rapid.SampledFrom([]byte{0, 1, 2, 0x7f, 0x80, 0xff}).Draw(t, "v")
+	case "str-unterminated":
+		o := strOffs[rapid.IntRange(0, 4).Draw(t, "which")]
+		body[o+int(body[o])] = 'Z' // the last byte of the string, its NUL
+	case "pad-zero":
+		body = append(body, make([]byte, rapid.IntRange(1, 9).Draw(t, "pad"))...)
+	case "pad-nonzero":
+		body = append(body, 0, 0, 1)
+	case "cut":
+		body = body[:rapid.IntRange(0, len(body)-1).Draw(t, "cut")]
+	}
+	return body, "sp800155/" + cls + "/" + mut
 }
 
+// spEventData is the EventData of an event-log event carrying the given SP800-155 body.
+func spEventData(body []byte) []byte {
+	return append(append([]byte(nil), eventlog.TcgSP800155Event3Signature[:]...), body...)
+}
+
+// genEventLog marshals a crypto-agile log with the repository's own marshaller. Each event is either
+// opaque (0-40 drawn bytes) or an SP800-155 Event3 (signature + drawn body, see genSP800155) carried
+// as EV_NO_ACTION - what extract.Endorsement looks for - or, now and then, under another event type.
+// The class says how many events, how many of them SP800-155, and the log-level mutation.
 func genEventLog(t *rapid.T) ([]byte, string) {
 	hdr := eventlog.TCGPCClientPCREvent{EventType: eventlog.EvNoAction, EventData: eventlog.TCGEventData{Event: &eventlog.UnknownEvent{Data: []byte("Spec ID Event03\x00 harness header")}}}
 	n := rapid.IntRange(0, 4).Draw(t, "nEvents")
 	var evs []*eventlog.TCGPCREvent2
+	rims, rimMut := 0, "clean"
 	for i := 0; i < n; i++ {
 		d := sha512.Sum384([]byte{byte(i)})
 		e := &eventlog.TCGPCREvent2{PCRIndex: uint32(i), EventType: 0x80000001,
-			Digests:   eventlog.Uint32SizedArrayT[*eventlog.TaggedDigest]{Array: []*eventlog.TaggedDigest{{AlgID: 0x000C, Digest: d[:]}, {AlgID: 0x0004, Digest: d[:20]}}},
-			EventData: eventlog.TCGEventData{Event: &eventlog.UnknownEvent{Data: rapid.SliceOfN(rapid.Byte(), 0, 40).Draw(t, "evdata")}}}
-		if rapid.IntRange(0, 2).Draw(t, "isRim") == 0 {
-			sp := &eventlog.SP800155Event3{}
-			if err := sp.UnmarshalFromBytes(genSP800155(t)); err == nil {
-				e.EventType = eventlog.EvNoAction
-				e.EventData = eventlog.TCGEventData{Event: sp}
+			Digests: eventlog.Uint32SizedArrayT[*eventlog.TaggedDigest]{Array: []*eventlog.TaggedDigest{{AlgID: 0x000C, Digest: d[:]}, {AlgID: 0x0004, Digest: d[:20]}}}}
+		if rapid.IntRange(0, 1).Draw(t, "isRim") == 0 {
+			// one malformed event makes the whole log unreadable, so most events are left well-formed
+			body, cls := genSP800155M(t, rapid.IntRange(0, 3).Draw(t, "mutateEvent") == 0)
+			if !strings.HasSuffix(cls, "/none") && !strings.HasSuffix(cls, "/pad-zero") {
+				rimMut = "mutated"
 			}
+			rims++
+			e.EventData = eventlog.TCGEventData{Event: &eventlog.UnknownEvent{Data: spEventData(body)}}
+			if rapid.IntRange(0, 7).Draw(t, "measured") != 0 {
+				e.EventType = eventlog.EvNoAction
+			}
+		} else {
+			e.EventData = eventlog.TCGEventData{Event: &eventlog.UnknownEvent{Data: rapid.SliceOfN(rapid.Byte(), 0, 40).Draw(t, "evdata")}}
 		}
 		evs = append(evs, e)
 	}
@@ -624,7 +794,7 @@ func genEventLog(t *rapid.T) ([]byte, string) {
 	b := buf.Bytes()
 	// structure-aware: overwrite a 4-byte little-endian field (size prefixes, digest counts, alg ids live
 	// at unaligned offsets, so any offset is drawn) with a hostile constant, possibly truncate after it
-	kind := rapid.SampledFrom([]string{"none", "size-field", "size-field+truncate", "bytes"}).Draw(t, "logMut")
+	kind := rapid.SampledFrom([]string{"none", "none", "none", "size-field", "size-field+truncate", "bytes"}).Draw(t, "logMut")
 	switch kind {
 	case "size-field", "size-field+truncate":
 		if len(b) >= 4 {
@@ -639,10 +809,20 @@ func genEventLog(t *rapid.T) ([]byte, string) {
 		b, mk = mutateBytes(t, b)
 		kind = "bytes/" + mk
 	}
-	return b, fmt.Sprintf("events=%d/%s", n, kind)
+	if rims == 0 {
+		rimMut = "none"
+	}
+	return b, fmt.Sprintf("events=%d/sp800155=%d-%s/%s", n, rims, rimMut, kind)
 }
 
 func genAttestation(t *rapid.T, endorsement []byte) ([]byte, string) {
+	b, kind := genAttestationShape(t, endorsement)
+	b, mk := mutateBytes(t, b)
+	return b, kind + "/" + mk
+}
+
+// genAttestationShape is genAttestation before the generic byte mutation.
+func genAttestationShape(t *rapid.T, endorsement []byte) ([]byte, string) {
 	kind := rapid.SampledFrom([]string{"snp/tpm", "snp/snpproto", "snp/raw", "snp/raw-hex", "snp/raw-b64", "snp/report-only", "snp/certtable-only", "tdx/raw", "tdx/tpm", "tdx/raw-hex", "random", "empty", "partial-proto"}).Draw(t, "attKind")
 	var b []byte
 	extras := map[string][]byte{}
@@ -679,8 +859,9 @@ func genAttestation(t *rapid.T, endorsement []byte) ([]byte, string) {
 			ent := rapid.IntRange(0, 5).Draw(t, "entry")
 			if 24*(ent+1) <= len(b) {
 				b = append([]byte(nil), b...)
-				binary.LittleEndian.PutUint32(b[24*ent+16:], rapid.SampledFrom(hostile32).Draw(t, "off"))
-				binary.LittleEndian.PutUint32(b[24*ent+20:], rapid.SampledFrom(hostile32).Draw(t, "len"))
+				off, ln := hostilePair(t)
+				binary.LittleEndian.PutUint32(b[24*ent+16:], off)
+				binary.LittleEndian.PutUint32(b[24*ent+20:], ln)
 			}
 		}
 	case "tdx/raw":
@@ -719,21 +900,22 @@ func genAttestation(t *rapid.T, endorsement []byte) ([]byte, string) {
 		b = append([]byte(nil), b...)
 		ent := rapid.IntRange(0, 5).Draw(t, "entry")
 		if 0x4a0+24*(ent+1) <= len(b) {
-			binary.LittleEndian.PutUint32(b[0x4a0+24*ent+16:], rapid.SampledFrom(hostile32).Draw(t, "off"))
-			binary.LittleEndian.PutUint32(b[0x4a0+24*ent+20:], rapid.SampledFrom(hostile32).Draw(t, "len"))
+			off, ln := hostilePair(t)
+			binary.LittleEndian.PutUint32(b[0x4a0+24*ent+16:], off)
+			binary.LittleEndian.PutUint32(b[0x4a0+24*ent+20:], ln)
 		}
 		kind += "+hostile-table"
 	}
-	b, mk := mutateBytes(t, b)
-	return b, kind + "/" + mk
+	return b, kind
 }
 
 // ---------------------------------------------------------------------------------------------
 // verdict
 
 const (
-	baseBudget = 8 << 20
-	perByte    = 64
+	baseBudget   = 8 << 20
+	eventlogBase = 1 << 20
+	perByte      = 64
 )
 
 // hostileCertTable says whether b (a raw SNP report followed by an AMD certificate table, a bare
@@ -783,28 +965,78 @@ func verdict(t ev.TB, r req, total int, res isolate.Result, what string) bool {
 	return verdictDep(t, r, total, res, what, "")
 }
 
+// baseFor is the input-independent part of the allocation budget of an entry point. The event-log
+// decoders work on a reader and a handful of small structures (observed: a few KiB); the repository
+// documents that a declared size beyond a small threshold (64 KiB) is not allocated before the data
+// arrives, so 1 MiB - sixteen times that threshold - is already "out of proportion" for inputs of a
+// few hundred bytes. Everything that parses certificates, protos or builds a command tree keeps 8 MiB.
+func baseFor(entry string) uint64 {
+	switch entry {
+	case "CryptoAgileLog.Unmarshal", "SP800155Event3", "exel.Locate":
+		return eventlogBase
+	}
+	return baseBudget
+}
+
+func budgetFor(entry string, total int) uint64 { return baseFor(entry) + perByte*uint64(total) }
+
+// readerNil says whether the request configures the relying party without a UEFI variable reader.
+func readerNil(r req) bool {
+	switch r.Entry {
+	case "exel.Locate":
+		return r.Opt&locNoReader != 0
+	case "extract.Endorsement":
+		return r.Opt&16 != 0
+	case "cli":
+		return r.Opt&cliNoEfiVars != 0
+	}
+	return false
+}
+
+// panicOriginOf returns the function that raised the panic: isolate reports "topRepoFrame@origin"
+// when the two differ and the bare repository frame when the panic was raised in repository code.
+func panicOriginOf(frame string) string {
+	if i := strings.LastIndex(frame, "@"); i >= 0 {
+		return frame[i+1:]
+	}
+	return frame
+}
+
 // verdictDep is verdict with the name of a recorded dependency defect the input is known to trigger
-// ("" = none): every failure mode of such an input is keyed under that defect.
+// ("" = none). A death, a watchdog expiry or an allocation / CPU excess of such an input cannot be
+// attributed more precisely and is keyed under that defect. A panic is keyed under it only when it
+// was raised inside the dependency: a panic whose origin is a repository function is the
+// repository's own, whatever else the input would also have triggered.
 func verdictDep(t ev.TB, r req, total int, res isolate.Result, what string, dep string) bool {
-	if dep != "" && (res.Outcome == "panic" || res.Outcome == "died" || res.Outcome == "timeout" || res.Alloc > uint64(baseBudget)+perByte*uint64(total) || res.CPUms > 20000) {
-		kind := res.Outcome
-		if kind == "ok" || kind == "error" {
-			kind = "resources"
+	budget := budgetFor(r.Entry, total)
+	if dep != "" {
+		bad := res.Outcome == "died" || res.Outcome == "timeout" || ((res.Outcome == "ok" || res.Outcome == "error") && (res.Alloc > budget || res.CPUms > 20000))
+		if res.Outcome == "panic" && strings.Contains(res.Frame, "@") {
+			bad = true // raised below the repository's frames (the dependency, or the library code it calls)
 		}
-		return ev.Violation(t, "C07/dep/"+dep+"/"+kind, "%s: %s %s (alloc %d, cpu %d ms) on %s", r.Entry, res.Outcome, res.Msg, res.Alloc, res.CPUms, what)
+		if bad {
+			kind := res.Outcome
+			if kind == "ok" || kind == "error" {
+				kind = "resources"
+			}
+			return ev.Violation(t, "C07/dep/"+dep+"/"+kind, "%s: %s %s (frame %s, alloc %d, cpu %d ms) on %s", r.Entry, res.Outcome, res.Msg, res.Frame, res.Alloc, res.CPUms, what)
+		}
 	}
 	switch res.Outcome {
 	case "infra":
 		ev.Note("inconclusive case (not judged): %s", res.Msg)
+		ev.Class("inconclusive", "infra/"+r.Entry)
 		return true
 	case "panic":
+		if readerNil(r) && panicOriginOf(res.Frame) == "extract/eventlog.Locate" {
+			return ev.Violation(t, "C07/locate-nil-variable-reader", "%s panicked: %s (frame %s): a UEFI-variable RIM locator is decoded and then read through a nil VariableReader on %s", r.Entry, res.Msg, res.Frame, what)
+		}
 		return ev.Violation(t, "C07/panic/"+res.Frame, "%s panicked: %s (frame %s) on %s", r.Entry, res.Msg, res.Frame, what)
 	case "died":
 		return ev.Violation(t, "C07/worker-died/"+r.Entry, "%s killed the process (%s) on %s", r.Entry, res.Msg, what)
 	case "timeout":
 		return ev.Violation(t, "C07/cpu-unbounded/"+r.Entry, "%s did not finish: %s on %s", r.Entry, res.Msg, what)
 	}
-	budget := uint64(baseBudget) + perByte*uint64(total)
 	if res.Alloc > budget {
 		key := "C07/alloc-unbounded/" + r.Entry
 		if strings.Contains(r.Entry, "CryptoAgileLog") || r.Entry == "extract.Endorsement" || r.Entry == "SP800155Event3" {
@@ -818,6 +1050,56 @@ func verdictDep(t ev.TB, r req, total int, res isolate.Result, what string, dep 
 	return true
 }
 
+// depFor names the recorded dependency defect the request's attestation inputs trigger. Only blobs
+// that the entry point hands to the certificate-table parser are looked at (the attestation, and the
+// quote a provider returns), never an endorsement or an event log.
+func depFor(r req, blobs [][]byte) string {
+	var cands [][]byte
+	switch r.Entry {
+	case "extract.Attestation", "extractsev.FromCertTable", "SevValidate", "TdxValidate":
+		cands = blobs[:1]
+	case "extract.Endorsement":
+		cands = append(cands, blobs[0])
+		if len(blobs) > 2 && r.Opt&4 != 0 {
+			cands = append(cands, blobs[2])
+		}
+	case "cli":
+		switch r.Opt % 16 {
+		case 5, 6, 8, 13, 14:
+			cands = blobs[:1]
+		case 7, 15:
+			cands = append(cands, blobs[0])
+			if len(blobs) > 2 && r.Opt&cliProvider != 0 {
+				cands = append(cands, blobs[2])
+			}
+		}
+	}
+	for _, b := range cands {
+		if hostileCertTable(b) {
+			return "go-sev-guest-certtable"
+		}
+	}
+	return ""
+}
+
+// trivialClass says whether the case ended before any decoder of interest ran: the outer framing was
+// refused, the command line never got to its input, or the locator type is one nothing decodes.
+func trivialClass(r req, class string) bool {
+	for _, p := range []string{"outer-framing-rejected", "rejected:could not unmarshal VM launch", "rejected:unknown attestation format", "rejected:quote is nil",
+		"rejected:unknown flag", "rejected:failed to parse root certificate", "rejected:failed to get root certificate", "rejected:failed to unmarshal proto", "rejected:failed to read file", "rejected:failed to read attestation file", "rejected:getter was nil", "rejected:unsupported locator type"} {
+		if strings.HasPrefix(class, p) {
+			return true
+		}
+	}
+	switch r.Entry {
+	case "CryptoAgileLog.Unmarshal":
+		return strings.HasPrefix(class, "rejected:failed to read Header")
+	case "SP800155Event3":
+		return strings.HasPrefix(class, "rejected:failed to read PlatformManufacturerID") || strings.HasPrefix(class, "rejected:failed to read ReferenceManifestGuid")
+	}
+	return false
+}
+
 func quote(b []byte) string {
 	if len(b) > 96 {
 		return fmt.Sprintf("%x…(%d bytes)", b[:96], len(b))
@@ -825,16 +1107,21 @@ func quote(b []byte) string {
 	return fmt.Sprintf("%x", b)
 }
 
-var inspectPaths = []string{"timestamp", "cert", "digest", "sev_snp.measurements[2]", "sev_snp.measurements[1]", "sev_snp", "tdx.measurements[0].mrtd", "tdx.measurements[1].mrtd", "tdx.measurements[9]", "sev_snp.policy", "cl_spec", "nope", "timestamp|cert", "tdx.measurements", "sev_snp.measurements", ""}
+var inspectPaths = []string{"timestamp", "cert", "digest", "sev_snp.measurements[2]", "sev_snp.measurements[1]", "sev_snp", "tdx.measurements[0].mrtd", "tdx.measurements[1].mrtd", "tdx.measurements[9]", "sev_snp.policy", "cl_spec", "nope", "timestamp|cert", "tdx.measurements", "sev_snp.measurements", "sev_snp.family_id", "sev_snp.image_id", "sev_snp.ca_bundle", ""}
 
-const rule = "per entry point, inputs from (a) structure-aware mutation of genuine objects: endorsements with every optional part absent/empty (timestamp, provenance, certificate, SNP/TDX sections, nil list elements, empty measurements), attestations in every accepted encoding incl. hex/base64, bare report, bare certificate table with hostile offsets/lengths, short measurements; event logs built with the repository's own marshaller with SP800-155 events of every locator type, then a 4-byte field at a drawn offset replaced by a hostile constant (size prefixes, digest counts, algorithm ids) with optional truncation; locators shorter than 18 bytes, odd length, unterminated, BOM, surrogates; (b) generic byte mutations (truncate, flip, hostile u32, oversized varint, insert, extend); (c) arbitrary bytes; executed in an address-space-limited worker; oracle: value or error, no panic, no process death, CPU < 20 s, allocator volume <= 8 MiB + 64*len(input); non-trivial = the outer framing is accepted so that an inner decoder runs; distinct = (entry, option shape, generator class, outcome class)"
+const rule = "per entry point, inputs from (a) structure-aware mutation of genuine objects: endorsements with every optional part absent/empty (timestamp incl. out-of-range seconds/nanos, provenance, certificate, SNP/TDX sections, empty measurements), attestations in every accepted encoding incl. hex/base64, bare report, bare certificate table with hostile offsets/lengths (independent hostile constants or a pair whose 32-bit sum wraps), short measurements; event logs built with the repository's own marshaller whose events are opaque or SP800-155 Event3 (signature + body; firmware manufacturer GCE/other/empty; RIM locator of every type; 1 in 4 bodies mutated: locator size prefix or a string's size byte hostile, string unterminated, zero/non-zero padding, cut), then a 4-byte field at a drawn offset replaced by a hostile constant with optional truncation, or generic byte mutation; SP800-155 bodies and locators (shorter than 18 bytes, odd length, unterminated, BOM, surrogates) also directly; (b) generic byte mutations (truncate, flip, hostile u32, oversized varint, insert, extend); (c) arbitrary bytes up to 4 KiB; relying-party configurations: getter / quote provider / UEFI variable reader present or absent, force fetch, any firmware manufacturer; the command line tool with in-memory files and the real root of trust (PEM, DER, fetched, unparsable): verify, inspect payload/signature/mask, sev policy, tdx policy, sev validate (endorsement given / from the attestation / fetched; with --launch_vmsas), tdx validate (with --ram_gib), extract PATH and extract without PATH (backend with and without provider, getter, variable-reader factory; event log in a real file); executed in an address-space-limited worker; oracle: value or error, no panic, no process death, CPU < 20 s, allocator volume <= base + 64*len(input) with base 1 MiB for the event-log decoders (CryptoAgileLog.Unmarshal, SP800155Event3, exel.Locate) and 8 MiB for everything that parses certificates or builds a command tree; an input carrying a certificate-table entry of the recorded go-sev-guest defect is keyed under that defect unless the panic was raised in a repository function; non-trivial = the outer framing is accepted so that an inner decoder runs (not: proto/format refused, command line stopped at reading its files or the root certificate, event-log header unreadable, locator type that nothing decodes); distinct = (entry, option shape, generator class, outcome class)"
 
 func runCase(t *rapid.T, name string, r req, genClass string, blobs ...[]byte) {
+	runCaseNT(t, name, r, genClass, nil, blobs...)
+}
+
+// runCaseNT is runCase with an additional condition a case has to meet to count as non-trivial.
+func runCaseNT(t *rapid.T, name string, r req, genClass string, also func(class string) bool, blobs ...[]byte) {
 	total := 0
 	for _, b := range blobs {
 		total += len(b)
 	}
-	res := isolate.RunConfirmed("dec", encode(r, blobs...), uint64(baseBudget)+perByte*uint64(total), 20000)
+	res := isolate.RunConfirmed("dec", encode(r, blobs...), budgetFor(r.Entry, total), 20000)
 	what := fmt.Sprintf("entry %s opt %d str %q gen %s blobs %s", r.Entry, r.Opt, r.Str, genClass, quoteAll(blobs))
 	if res.CPUms > 2000 {
 		ev.Note("slow case: %d ms cpu, outcome %s, %s", res.CPUms, res.Outcome, what)
@@ -844,20 +1131,27 @@ func runCase(t *rapid.T, name string, r req, genClass string, blobs ...[]byte) {
 			}
 		}
 	}
-	dep := ""
-	for _, b := range blobs {
-		if hostileCertTable(b) {
-			dep = "go-sev-guest-certtable"
-		}
-	}
-	if !verdictDep(t, r, total, res, what, dep) {
+	if !verdictDep(t, r, total, res, what, depFor(r, blobs)) {
 		return
 	}
-	nontrivial := res.Class != "outer-framing-rejected" && !strings.HasPrefix(res.Class, "rejected:could not unmarshal VM launch") && !strings.HasPrefix(res.Class, "rejected:unknown attestation format") && !strings.HasPrefix(res.Class, "rejected:quote is nil")
-	ev.Case(name, nontrivial, r.Entry+"|"+strconv.Itoa(r.Opt)+"|"+genClass+"|"+res.Class, r.Entry+"/"+short(res.Class), func() any {
+	if res.Alloc > maxAlloc[r.Entry] && res.Alloc <= budgetFor(r.Entry, total) {
+		maxAlloc[r.Entry] = res.Alloc
+	}
+	entry := r.Entry
+	if entry == "cli" {
+		entry = "cli:" + cliNames[r.Opt%16]
+	}
+	nontrivial := !trivialClass(r, res.Class) && (also == nil || also(res.Class))
+	ev.Case(name, nontrivial, r.Entry+"|"+strconv.Itoa(r.Opt)+"|"+genClass+"|"+res.Class, entry+"/"+short(res.Class), func() any {
 		return map[string]any{"entry": r.Entry, "opt": r.Opt, "generator": genClass, "input_bytes": total, "outcome": res.Outcome, "class": res.Class, "alloc": res.Alloc}
 	})
 }
+
+// maxAlloc records the largest allocation volume seen per entry point among the cases that passed
+// (reported as a note: it shows how far the budgets are from what correct code needs).
+var maxAlloc = map[string]uint64{}
+
+var cliNames = []string{"verify", "inspect-payload", "inspect-mask", "sev-policy", "tdx-policy", "sev-validate", "tdx-validate", "extract", "sev-validate-noendorsement", "verify-der-root", "verify-fetched-root", "verify-bad-root", "inspect-signature", "sev-validate-vmsas", "tdx-validate-ram", "extract-noarg"}
 
 func quoteAll(blobs [][]byte) string {
 	var parts []string
@@ -882,7 +1176,7 @@ func TestEndorsementDecoders(t *testing.T) {
 	rapid.Check(t, func(t *rapid.T) {
 		e, cls := genEndorsement(t)
 		if rapid.IntRange(0, 9).Draw(t, "rawBytes") == 0 {
-			e, cls = rapid.SliceOfN(rapid.Byte(), 0, 300).Draw(t, "raw"), "arbitrary"
+			e, cls = rapid.SliceOfN(rapid.Byte(), 0, 4096).Draw(t, "raw"), "arbitrary"
 		}
 		r := req{Entry: rapid.SampledFrom(entries).Draw(t, "entry")}
 		switch r.Entry {
@@ -896,7 +1190,7 @@ func TestEndorsementDecoders(t *testing.T) {
 			r.Opt = rapid.IntRange(0, 4).Draw(t, "form") + 8*rapid.IntRange(0, 2).Draw(t, "which")
 			r.Str = rapid.SampledFrom(inspectPaths).Draw(t, "path")
 		case "cli":
-			r.Opt = rapid.IntRange(0, 4).Draw(t, "cmd")
+			r.Opt = rapid.SampledFrom([]int{0, 0, 1, 2, 2, 3, 4, 9, 10, 11, 12}).Draw(t, "cmd") + cliNoGetter*rapid.SampledFrom([]int{0, 0, 0, 1}).Draw(t, "noGetter")
 			r.Str = rapid.SampledFrom(inspectPaths).Draw(t, "path")
 		}
 		runCase(t, name, r, cls, e)
@@ -980,16 +1274,34 @@ func TestAttestationDecoders(t *testing.T) {
 		case "TdxValidate":
 			r.Opt = rapid.SampledFrom([]int{0, 16, 32}).Draw(t, "ram")
 		case "extract.Endorsement":
-			r.Opt = rapid.IntRange(0, 15).Draw(t, "flags")
-			if rapid.Bool().Draw(t, "withLog") {
-				blobs[1], _ = genEventLog(t)
-			} else {
-				blobs[1] = nil
+			// bits: 1 force fetch, 2 getter, 4 provider, 8 any firmware manufacturer, 16 no UEFI variable reader
+			r.Opt = rapid.SampledFrom([]int{0, 0, 0, 1}).Draw(t, "force") + 2*rapid.IntRange(0, 7).Draw(t, "flags") + 16*rapid.SampledFrom([]int{0, 0, 0, 1}).Draw(t, "noReader")
+			ecls = "nolog"
+			blobs[1] = nil
+			if rapid.IntRange(0, 3).Draw(t, "withLog") != 0 {
+				blobs[1], ecls = genEventLog(t)
 			}
 			blobs[2], _ = genAttestation(t, endorsement)
 		case "extractsev.FromCertTable":
 		case "cli":
-			r.Opt = rapid.IntRange(5, 7).Draw(t, "cmd")
+			r.Opt = rapid.SampledFrom([]int{5, 6, 7, 7, 7, 8, 13, 14, 15}).Draw(t, "cmd") + cliNoGetter*rapid.SampledFrom([]int{0, 0, 0, 1}).Draw(t, "noGetter")
+			if c := r.Opt % 16; c == 7 || c == 15 {
+				// extract: blob 1 is the event log, blob 2 the quote of the machine's provider (if it has one)
+				r.Opt += cliProvider*rapid.IntRange(0, 1).Draw(t, "provider") + cliForceFetch*rapid.SampledFrom([]int{0, 0, 1}).Draw(t, "force") + cliNoEfiVars*rapid.SampledFrom([]int{0, 0, 0, 1}).Draw(t, "noEfi")
+				ecls = "nolog"
+				blobs[1] = nil
+				if rapid.IntRange(0, 2).Draw(t, "withLog") != 0 {
+					blobs[1], ecls = genEventLog(t)
+				}
+				blobs[2], _ = genAttestation(t, endorsement)
+			}
+		}
+		if r.Entry == "extract.Endorsement" || (r.Entry == "cli" && (r.Opt%16 == 7 || r.Opt%16 == 15)) {
+			if p := strings.Split(ecls, "/"); len(p) >= 3 {
+				ev.Class(name, "extract-log/"+p[1]+"/"+p[2])
+			} else {
+				ev.Class(name, "extract-log/"+ecls)
+			}
 		}
 		runCase(t, name, r, acls+"/"+ecls, blobs...)
 	})
@@ -1004,29 +1316,156 @@ func TestEventLogDecoders(t *testing.T) {
 		case 0, 1:
 			b, cls := genEventLog(t)
 			if rapid.IntRange(0, 9).Draw(t, "rawBytes") == 0 {
-				b, cls = rapid.SliceOfN(rapid.Byte(), 0, 200).Draw(t, "raw"), "arbitrary"
+				b, cls = rapid.SliceOfN(rapid.Byte(), 0, 4096).Draw(t, "raw"), "arbitrary"
 			}
 			runCase(t, name, req{Entry: "CryptoAgileLog.Unmarshal", Opt: rapid.IntRange(0, 3).Draw(t, "reader")}, cls, b)
 		case 2:
-			b := genSP800155(t)
+			b, cls := genSP800155(t)
 			b, mk := mutateBytes(t, b)
-			runCase(t, name, req{Entry: "SP800155Event3"}, "sp800155/"+mk, b)
+			runCase(t, name, req{Entry: "SP800155Event3"}, cls+"/"+mk, b)
 		default:
 			typ, loc := genLocator(t)
-			runCase(t, name, req{Entry: "exel.Locate", Opt: int(typ)}, fmt.Sprintf("locator/type%d/len%d", typ, min(len(loc), 20)), loc)
+			opt := int(typ & 0xff)
+			shape := "full"
+			switch rapid.IntRange(0, 5).Draw(t, "locOpts") {
+			case 0:
+				opt, shape = opt|locNoGetter, "no-getter"
+			case 1:
+				opt, shape = opt|locNoReader, "no-reader"
+			}
+			runCase(t, name, req{Entry: "exel.Locate", Opt: opt}, fmt.Sprintf("locator/type%d/len%d/%s", typ&0xff, min(len(loc), 20), shape), loc)
 		}
+	})
+}
+
+// genSignedGolden draws a golden measurement whose CONTENTS are hostile or merely unexpected for the
+// verifier that receives it, to be signed with the trusted key: passing the certificate and signature
+// checks is what exposes the code behind them (digest comparison, SEV-SNP measurement matching, TDX
+// policy derivation, the dependency validators) to such contents.
+func genSignedGolden(t *rapid.T) (*epb.VMGoldenMeasurement, string) {
+	g := &epb.VMGoldenMeasurement{Timestamp: timestamppb.New(t0), ClSpec: 77, Digest: bytes.Repeat([]byte{0x11}, 48)}
+	fullSnp := func() *epb.VMSevSnp {
+		return &epb.VMSevSnp{Svn: 1, Measurements: map[uint32][]byte{2: snpMeas, 4: bytes.Repeat([]byte{1}, 48)}, Policy: 0x70000, FamilyId: make([]byte, 16), ImageId: make([]byte, 16)}
+	}
+	fullTdx := func() *epb.VMTdx {
+		return &epb.VMTdx{Svn: 1, Measurements: []*epb.VMTdx_Measurement{{RamGib: 16, Mrtd: mrtd}, {RamGib: 32, Mrtd: bytes.Repeat([]byte{0x3d}, 48)}}}
+	}
+	shape := rapid.SampledFrom([]string{"complete", "tdx-only", "snp-only", "neither", "snp-empty", "snp-no-measurements", "snp-odd-measurements", "snp-svsm", "snp-zero-policy", "snp-ca-bundle", "tdx-empty", "tdx-empty-entries", "tdx-short-mrtd", "no-digest", "short-digest", "no-timestamp", "no-provenance"}).Draw(t, "goldenShape")
+	g.SevSnp, g.Tdx = fullSnp(), fullTdx()
+	switch shape {
+	case "tdx-only":
+		g.SevSnp = nil
+	case "snp-only":
+		g.Tdx = nil
+	case "neither":
+		g.SevSnp, g.Tdx = nil, nil
+	case "snp-empty":
+		g.SevSnp = &epb.VMSevSnp{}
+	case "snp-no-measurements":
+		g.SevSnp.Measurements = nil
+	case "snp-odd-measurements":
+		g.SevSnp.Measurements = map[uint32][]byte{0: snpMeas, 1: nil, 2: {1, 2, 3}, 4: {}, 0xffffffff: bytes.Repeat([]byte{2}, 4096)}
+	case "snp-svsm":
+		g.SevSnp.SvsmMeasurement = rapid.SampledFrom([][]byte{snpMeas, {}, {9}}).Draw(t, "svsm")
+	case "snp-zero-policy":
+		g.SevSnp.Policy = rapid.SampledFrom([]uint64{0, 1<<64 - 1, 0x30000}).Draw(t, "policy")
+	case "snp-ca-bundle":
+		g.SevSnp.CaBundle = genCaBundle(t)
+	case "tdx-empty":
+		g.Tdx = &epb.VMTdx{}
+	case "tdx-empty-entries":
+		g.Tdx.Measurements = []*epb.VMTdx_Measurement{{}, {RamGib: 16}, {Mrtd: mrtd}}
+	case "tdx-short-mrtd":
+		g.Tdx.Measurements = []*epb.VMTdx_Measurement{{RamGib: 16, Mrtd: mrtd[:7]}, {RamGib: 16, Mrtd: bytes.Repeat([]byte{7}, 4096)}}
+	case "no-digest":
+		g.Digest = nil
+	case "short-digest":
+		g.Digest = []byte{0x11}
+	case "no-timestamp":
+		g.Timestamp = nil
+	case "no-provenance":
+		g.ClSpec = 0
+	}
+	return g, shape
+}
+
+// Endorsements that ARE authentic (certificate chains to the relying party's root, signature valid)
+// with contents no verifier expects, through every consumer that first authenticates and then
+// interprets: the code behind the signature check is as much a decoder of received bytes as the code
+// in front of it, and an authentic TDX-only endorsement handed to the SEV-SNP verifier, or a quote
+// proto without a body handed to the TDX validator, are inputs a verifier meets in practice.
+func TestSignedContents(t *testing.T) {
+	const name = "authentic-endorsement-contents"
+	ev.Rule(name, "endorsement = drawn golden-measurement shape (complete; TDX-only; SNP-only; neither; SNP section empty / without measurements / with absent, short, empty, 4 KiB and key-0 measurements / SVSM measurement / zero or all-ones policy / drawn CA bundle; TDX section empty / entries without RAM or MRTD / short and 4 KiB MRTD; digest absent or 1 byte; timestamp or provenance absent) carrying the trusted signer certificate and a valid RSA-PSS signature; entries verify.Endorsement and EndorsementProto (SNP options nil / empty / measurement / measurement+VMSA count 0,1,2,4,9; expected UEFI digest set or not), the validator closure, SevValidate (endorsement given, in the certificate table, or fetched), TdxValidate (RAM 0/16/32), and the verify / sev validate / tdx validate commands with the real root; attestations are unmutated renderings of every accepted format (matching, other and short measurement) incl. wrappers with absent sub-messages, 1 in 4 byte-mutated; oracle as for the other sub-checks; non-trivial = the endorsement was authenticated, i.e. the case did not end at the certificate or signature check or earlier; distinct = (entry, options, golden shape, attestation shape, outcome class)")
+	checks(ev.Scale(1500, 15000))
+	if theSignCert == nil {
+		theSignCert = signCert()
+	}
+	entries := []string{"verify.Endorsement", "verify.EndorsementProto", "closure", "SevValidate", "SevValidate", "TdxValidate", "TdxValidate", "cli"}
+	rapid.Check(t, func(t *rapid.T) {
+		g, shape := genSignedGolden(t)
+		eb, _ := proto.Marshal(pki.Endorse(g, theSignCert.Raw, pki.Key(1)))
+		r := req{Entry: rapid.SampledFrom(entries).Draw(t, "entry")}
+		blobs := [][]byte{eb}
+		acls := "-"
+		att := func() []byte {
+			var a []byte
+			a, acls = genAttestationShape(t, eb)
+			if rapid.IntRange(0, 3).Draw(t, "mutAtt") == 0 {
+				var mk string
+				a, mk = mutateBytes(t, a)
+				acls += "/" + mk
+			}
+			return a
+		}
+		switch r.Entry {
+		case "verify.Endorsement", "verify.EndorsementProto":
+			r.Opt = rapid.IntRange(0, 3).Draw(t, "snp") + 4*rapid.SampledFrom([]int{0, 1, 2, 4, 9}).Draw(t, "vmsas") + 64*rapid.IntRange(0, 1).Draw(t, "digest")
+		case "closure":
+			meas := rapid.SampledFrom([][]byte{snpMeas, snpMeas, bytes.Repeat([]byte{1}, 48), bytes.Repeat([]byte{8}, 48), {1, 2, 3}, {}}).Draw(t, "reportMeasurement")
+			at := attest.SnpAttestation(snpMeas, nil)
+			at.Report.Measurement = meas
+			acls = fmt.Sprintf("snpproto/meas%d", len(meas))
+			r.Opt = rapid.IntRange(0, 3).Draw(t, "snp") + 4*rapid.SampledFrom([]int{0, 1, 2, 4}).Draw(t, "vmsas") + 64*rapid.IntRange(0, 1).Draw(t, "viaGetter")
+			blobs = [][]byte{mustMarshal(at), eb}
+		case "SevValidate":
+			r.Opt = rapid.IntRange(0, 1).Draw(t, "getter") + 4*rapid.SampledFrom([]int{0, 1, 2, 4}).Draw(t, "vmsas")
+			blobs = [][]byte{att(), eb}
+			if rapid.IntRange(0, 2).Draw(t, "noEndorsement") == 0 {
+				blobs[1] = nil
+			}
+		case "TdxValidate":
+			r.Opt = rapid.SampledFrom([]int{0, 16, 32, 7}).Draw(t, "ram")
+			blobs = [][]byte{att(), eb}
+		case "cli":
+			r.Opt = rapid.SampledFrom([]int{0, 5, 6, 8, 9, 10, 13, 14}).Draw(t, "cmd")
+			if c := r.Opt; c == 0 || c == 9 || c == 10 {
+				blobs = [][]byte{eb, nil}
+			} else {
+				blobs = [][]byte{att(), eb}
+			}
+		}
+		ev.Class(name, "golden/"+shape)
+		runCaseNT(t, name, r, shape+"/"+acls, func(class string) bool {
+			return !strings.HasPrefix(class, "rejected:endorsement certificate is invalid") && !strings.HasPrefix(class, "rejected:endorsement signature is invalid") && !strings.HasPrefix(class, "rejected:failed to verify endorsement")
+		}, blobs...)
 	})
 }
 
 // Plain regression replays of confirmed findings.
 func TestRegressions(t *testing.T) {
 	const name = "regression"
+	if os.Getenv("C07_SKIP_REGRESSION") != "" {
+		t.Skip("C07_SKIP_REGRESSION set: sensitivity experiment on the generated sub-checks alone")
+	}
 	ev.Rule(name, "hand-written replays of confirmed findings: endorsement without a timestamp (empty byte string, payload without field 1) through every consumer; event logs whose size prefix / digest count declares far more than the input holds (0x10000000, 0xffffffff); all non-trivial")
 	if theSignCert == nil {
 		theSignCert = signCert()
 	}
 	noTs := pki.Endorse(&epb.VMGoldenMeasurement{ClSpec: 1, Digest: make([]byte, 48)}, theSignCert.Raw, pki.Key(1))
 	noTsBytes, _ := proto.Marshal(noTs)
+	tdxOnlyBytes := mustMarshal(pki.Endorse(&epb.VMGoldenMeasurement{Timestamp: timestamppb.New(t0), ClSpec: 1, Digest: make([]byte, 48),
+		Tdx: &epb.VMTdx{Measurements: []*epb.VMTdx_Measurement{{RamGib: 16, Mrtd: mrtd}}}}, theSignCert.Raw, pki.Key(1)))
 	// header(32 bytes: pcr, type, sha1 digest(20), size=0) then one event with a huge digest count
 	hdr := make([]byte, 32)
 	binary.LittleEndian.PutUint32(hdr[4:], 3)
@@ -1049,6 +1488,26 @@ func TestRegressions(t *testing.T) {
 		{"no-timestamp/verify", req{Entry: "verify.Endorsement"}, [][]byte{noTsBytes}},
 		{"no-timestamp/closure", req{Entry: "closure"}, [][]byte{mustMarshal(attest.SnpAttestation(snpMeas, nil)), noTsBytes}},
 		{"no-timestamp/cli-verify", req{Entry: "cli", Opt: 0}, [][]byte{noTsBytes}},
+		{"no-timestamp/cli-tdx-validate", req{Entry: "cli", Opt: 6}, [][]byte{attest.TdxRawQuote(mrtd), noTsBytes}},
+		// fixed 33284ea: `extract FILE` on a machine without a quote provider, FILE yielding no object name
+		{"nil-provider/extract-garbage", req{Entry: "cli", Opt: 7}, [][]byte{[]byte("not an attestation")}},
+		{"nil-provider/extract-empty-file", req{Entry: "cli", Opt: 7}, [][]byte{{}}},
+		{"nil-provider/extract-short-measurement", req{Entry: "cli", Opt: 7}, [][]byte{mustMarshal(&spb.Attestation{Report: &spb.Report{Measurement: []byte{1, 2, 3}}})}},
+		{"nil-provider/extract-no-file", req{Entry: "cli", Opt: 15}, [][]byte{nil}},
+		{"nil-provider/extract-garbage/force-fetch", req{Entry: "cli", Opt: 7 + cliForceFetch}, [][]byte{[]byte("not an attestation")}},
+		// authentic endorsements with contents the receiving verifier does not expect
+		{"authentic/tdx-only-to-snp-verifier", req{Entry: "verify.Endorsement", Opt: 1}, [][]byte{tdxOnlyBytes}},
+		{"authentic/tdx-only-to-snp-closure", req{Entry: "closure", Opt: 3 + 4*2}, [][]byte{mustMarshal(attest.SnpAttestation(snpMeas, nil)), tdxOnlyBytes}},
+		{"authentic/bodyless-quote-to-TdxValidate", req{Entry: "TdxValidate"}, [][]byte{mustMarshal(&tpmpb.Attestation{TeeAttestation: &tpmpb.Attestation_TdxAttestation{TdxAttestation: &tpb.QuoteV4{}}}), tdxOnlyBytes}},
+		{"cli/sev-validate-on-tdx-quote", req{Entry: "cli", Opt: 5}, [][]byte{attest.TdxRawQuote(mrtd), tdxOnlyBytes}},
+		{"cli/sev-validate-on-empty-wrapper", req{Entry: "cli", Opt: 8}, [][]byte{mustMarshal(&tpmpb.Attestation{AkPub: []byte{1}}), nil}},
+		// a well-formed UEFI-variable locator at a relying party without a variable reader
+		{"nil-reader/locate-variable", req{Entry: "exel.Locate", Opt: int(eventlog.RIMLocationVariable) | locNoReader}, [][]byte{append(efiGUID(googleGUID), ucs2("FirmwareRIM", 1)...)}},
+		{"nil-reader/extract-endorsement-from-log", req{Entry: "extract.Endorsement", Opt: 16}, [][]byte{[]byte("x"), spLog(uint32(16 + 2*len("FirmwareRIM") + 2))}},
+		{"nil-reader/cli-extract", req{Entry: "cli", Opt: 7 + cliNoEfiVars}, [][]byte{[]byte("x"), spLog(uint32(16 + 2*len("FirmwareRIM") + 2))}},
+		// SP800-155 event whose RIM locator declares 4 GiB - 1
+		{"sp800155-rim-locator-size-0xffffffff", req{Entry: "SP800155Event3"}, [][]byte{spBody(0xffffffff)}},
+		{"sp800155-rim-locator-size-0x10000000/in-log", req{Entry: "CryptoAgileLog.Unmarshal"}, [][]byte{spLog(0x10000000)}},
 		{"no-timestamp/TdxValidate", req{Entry: "TdxValidate"}, [][]byte{attest.TdxRawQuote(mrtd), noTsBytes}},
 		{"known/certtable-offset-wrap", req{Entry: "extractsev.FromCertTable"}, [][]byte{wrapTable()}},
 		{"known/certtable-offset-wrap/attestation", req{Entry: "extract.Attestation"}, [][]byte{wrapTable()}},
@@ -1062,14 +1521,41 @@ func TestRegressions(t *testing.T) {
 		for _, b := range c.blobs {
 			total += len(b)
 		}
-		res := isolate.RunConfirmed("dec", encode(c.r, c.blobs...), uint64(baseBudget)+perByte*uint64(total), 20000)
-		if !verdict(t, c.r, total, res, "regression case "+c.label) {
+		res := isolate.RunConfirmed("dec", encode(c.r, c.blobs...), budgetFor(c.r.Entry, total), 20000)
+		// the certificate-table replays go through the same dependency classification as generated cases:
+		// whether that input panics, dies or merely over-allocates depends on the machine's memory limits
+		if !verdictDep(t, c.r, total, res, "regression case "+c.label, depFor(c.r, c.blobs)) {
 			return
 		}
 		ev.Case(name, true, c.label, c.label, func() any {
 			return map[string]any{"case": c.label, "outcome": res.Outcome, "class": res.Class, "alloc": res.Alloc}
 		})
 	}
+}
+
+// spBody is a well-formed SP800-155 Event3 body (UEFI-variable locator) whose RIM locator size
+// prefix is replaced by size; spLog carries it in an otherwise well-formed log.
+func spBody(size uint32) []byte {
+	sp := &eventlog.SP800155Event3{PlatformManufacturerStr: eventlog.ByteSizedCStr{Data: "Google, Inc."}, PlatformModel: eventlog.ByteSizedCStr{Data: "m"},
+		FirmwareManufacturerStr: eventlog.ByteSizedCStr{Data: "Google, Inc."}, FirmwareVersion: eventlog.ByteSizedCStr{Data: "1"}, RIMLocatorType: eventlog.RIMLocationVariable}
+	sp.RIMLocator.Data = append(efiGUID(googleGUID), ucs2("FirmwareRIM", 1)...)
+	full, err := sp.MarshalToBytes()
+	if err != nil {
+		panic(err)
+	}
+	body := append([]byte(nil), full[eventlog.EventSignatureSize:]...)
+	binary.LittleEndian.PutUint32(body[len(body)-8-len(sp.RIMLocator.Data)-4:], size)
+	return body
+}
+
+func spLog(size uint32) []byte {
+	hdr := eventlog.TCGPCClientPCREvent{EventType: eventlog.EvNoAction, EventData: eventlog.TCGEventData{Event: &eventlog.UnknownEvent{Data: []byte("Spec ID Event03\x00")}}}
+	e := &eventlog.TCGPCREvent2{EventType: eventlog.EvNoAction, EventData: eventlog.TCGEventData{Event: &eventlog.UnknownEvent{Data: spEventData(spBody(size))}}}
+	var buf bytes.Buffer
+	if err := (&eventlog.CryptoAgileLog{Header: hdr, Events: []*eventlog.TCGPCREvent2{e}}).Marshal(&buf); err != nil {
+		panic(err)
+	}
+	return buf.Bytes()
 }
 
 func mustMarshal(m proto.Message) []byte {
